@@ -691,12 +691,16 @@ func kdPhase(ctx *core.Ctx, cov *core.Cov, prop string) error {
 			copy(bad, lines)
 			changed := false
 			for i, l := range bad {
-				if l["ev"] == "R3" && l["out"] == "ok" {
+				if l["ev"] == "R3" && (l["out"] == "ok" || l["out"] == "abort") {
 					m := map[string]any{}
 					for k, v := range l {
 						m[k] = v
 					}
-					m["x"] = (l["x"].(int) + 1) % c.Q
+					if l["out"] == "ok" {
+						m["x"] = (l["x"].(int) + 1) % c.Q // a falsified secret share
+					} else {
+						m["culprits"] = []int{} // a falsified attribution
+					}
 					bad[i] = m
 					changed = true
 					break
@@ -708,7 +712,7 @@ func kdPhase(ctx *core.Ctx, cov *core.Cov, prop string) error {
 					return core.Inconcl("KeygenData_Trace self-test: %v", err)
 				}
 				if ok2 {
-					return core.Inconcl("KeygenData_Trace accepted a trace with a falsified secret share: the binding is vacuous")
+					return core.Inconcl("KeygenData_Trace accepted a trace with a falsified secret share / attribution: the binding is vacuous")
 				}
 				cov.Add("toy_trace_selftests_rejected", 1)
 			}
